@@ -606,8 +606,9 @@ def do_action(rec, strat, market, txn, a):
     try:
         if op == "place":
             tl = a.get("t") or ("t_" + a["o"])
-            order = rec.orders.get(a["o"])
-            if order is None and a.get("dup"):
+            order = rec.visible_orders().get(a["o"])
+            if order is None and (a.get("dup") or a["o"] in rec.orders):
+                # unknown label, or the label of a replacement that was never placed and dropped
                 rec.reqs.append(q)
                 return
             trade = rec.trades.get(tl) if order is None else order.trade
